@@ -167,10 +167,13 @@ func RunC02(env *sim.Env) {
 		mem.Set(p, files[p])
 	}
 	ld := loadersim.NewSimLoader(mem)
+	if t.Choose(4) == 3 {
+		ld.DataEOF = true // readers deliver their last bytes together with io.EOF
+	}
 	ld.Garbage = "[garbage " + dc.l + " if " + dc.r + " " + dc.l + "end" + dc.r + " " + dc.l
 	nFaults := t.Choose(3)
 	for i := 0; i < nFaults; i++ {
-		ld.Arm(names[t.Choose(len(names))], 1+t.Choose(5), t.Choose(12))
+		ld.Arm(names[t.Choose(len(names))], 1+t.Choose(6), t.Choose(12))
 	}
 	sopts := dc.options()
 	devMode := t.Choose(4) == 3
@@ -201,6 +204,7 @@ func RunC02(env *sim.Env) {
 		var err error
 		var pc *sim.Caught
 		faultsBefore := totalFired(ld)
+		panicsBefore := ld.Fired[loadersim.FaultPanic]
 		leak := bubble(env.T, func() {
 			pc = sim.Guard(func() {
 				if c.kind == "Parse" {
@@ -211,6 +215,12 @@ func RunC02(env *sim.Env) {
 			})
 		})
 		faulted := totalFired(ld) > faultsBefore
+		if pc != nil && ld.Fired[loadersim.FaultPanic] > panicsBefore {
+			// the loader itself panicked and its panic came out of the call: not the parser's doing.
+			// What must still hold: no goroutine is left behind.
+			pc, err = nil, fmt.Errorf("the loader's panic came out of the call")
+			env.Stat("probe:loader_panic_came_out_of_the_call", 1)
+		}
 		if debugTrace {
 			fmt.Printf("%s %s -> err=%v\n   loader: %v\n", c.kind, c.name, err, ld.Trace)
 			ld.Trace = nil
